@@ -215,6 +215,7 @@ func genFacts() {
 	}
 	b.WriteString("]\n\n")
 	genInPlaceFacts(&b)
+	genErrorProtocolFacts(&b)
 	b.WriteString("end Miller.Gen\n")
 	emit("Facts.lean", b.String())
 }
@@ -301,4 +302,138 @@ func genInPlaceFacts(b *strings.Builder) {
 		fmt.Fprintf(b, "(%s, %v, %v)", leanString(s.call), s.checked, s.removes)
 	}
 	b.WriteString("]\n\n")
+}
+
+
+// --- C17: the error-delivery protocol between a failing transformer, the writer and Stream.
+func genErrorProtocolFacts(b *strings.Builder) {
+	tr := loadPkg("pkg/transformers")
+	st := loadPkg("pkg/stream")
+	findFunc := func(p *pkgFiles, name string) *ast.FuncDecl {
+		for _, fn := range p.names {
+			for _, d := range p.files[fn].Decls {
+				if x, ok := d.(*ast.FuncDecl); ok && x.Name.Name == name {
+					return x
+				}
+			}
+		}
+		fatal("function %s not found", name)
+		return nil
+	}
+	// F1: inside runSingleTransformerBatch, in the block guarded by `err != nil` that follows the
+	// Transform call, the send on dataProcessingErrorChannel textually precedes the send on outputRecordChannel.
+	rb := findFunc(tr, "runSingleTransformerBatch")
+	errPos, markerPos := -1, -1
+	ast.Inspect(rb.Body, func(n ast.Node) bool {
+		ifs, ok := n.(*ast.IfStmt)
+		if !ok || exprString(tr.fset, ifs.Cond) != "err != nil" {
+			return true
+		}
+		ast.Inspect(ifs.Body, func(c ast.Node) bool {
+			if s, ok := c.(*ast.SendStmt); ok {
+				ch := exprString(tr.fset, s.Chan)
+				if ch == "dataProcessingErrorChannel" && errPos < 0 {
+					errPos = int(s.Pos())
+				}
+				if ch == "outputRecordChannel" && markerPos < 0 {
+					markerPos = int(s.Pos())
+				}
+			}
+			return true
+		})
+		return false
+	})
+	fmt.Fprintf(b, "/-- C17: in runSingleTransformerBatch's error branch the error is sent on dataProcessingErrorChannel\nBEFORE the end-of-stream marker is forwarded on outputRecordChannel. -/\ndef errorSendBeforeMarkerForward : Bool := %v\n\n", errPos >= 0 && markerPos >= 0 && errPos < markerPos)
+	// F2/F3: in Stream, after the select loop: non-blocking receives (select with default) from the
+	// error channels, and the final Flush error assigned to retval.
+	sf := findFunc(st, "Stream")
+	var drains []string
+	flushChecked := false
+	afterLoop := false
+	for _, stmt := range sf.Body.List {
+		if _, ok := stmt.(*ast.ForStmt); ok {
+			afterLoop = true
+			continue
+		}
+		if !afterLoop {
+			continue
+		}
+		ast.Inspect(stmt, func(n ast.Node) bool {
+			if sel, ok := n.(*ast.SelectStmt); ok {
+				hasDefault := false
+				var recv string
+				for _, cc := range sel.Body.List {
+					c := cc.(*ast.CommClause)
+					if c.Comm == nil {
+						hasDefault = true
+						continue
+					}
+					ast.Inspect(c.Comm, func(m ast.Node) bool {
+						if u, ok := m.(*ast.UnaryExpr); ok && u.Op == token.ARROW {
+							recv = exprString(st.fset, u.X)
+						}
+						return true
+					})
+					// the received value must reach retval
+					got := false
+					for _, bs := range c.Body {
+						if as, ok := bs.(*ast.AssignStmt); ok && len(as.Lhs) == 1 && exprString(st.fset, as.Lhs[0]) == "retval" {
+							got = true
+						}
+					}
+					if !got {
+						recv = ""
+					}
+				}
+				if hasDefault && recv != "" {
+					drains = append(drains, recv)
+				}
+			}
+			if ifs, ok := n.(*ast.IfStmt); ok && ifs.Init != nil && strings.Contains(exprString(st.fset, ifs.Cond), "err != nil") {
+				if as, ok := ifs.Init.(*ast.AssignStmt); ok && len(as.Rhs) == 1 && strings.HasSuffix(callNameOf(st, as.Rhs[0]), ".Flush") {
+					for _, bs := range ifs.Body.List {
+						if a2, ok := bs.(*ast.AssignStmt); ok && exprString(st.fset, a2.Lhs[0]) == "retval" {
+							flushChecked = true
+						}
+					}
+				}
+			}
+			return true
+		})
+	}
+	sort.Strings(drains)
+	b.WriteString("/-- C17: channels that Stream drains with a non-blocking receive into retval after its select loop. -/\ndef streamFinalDrains : List String := [")
+	for i, d := range drains {
+		if i > 0 {
+			b.WriteString(", ")
+		}
+		b.WriteString(leanString(d))
+	}
+	b.WriteString("]\n\n")
+	fmt.Fprintf(b, "/-- C17: the error of the final bufferedOutputStream.Flush() is assigned to retval. -/\ndef streamFlushErrorChecked : Bool := %v\n\n", flushChecked)
+	// capacity of the error channels
+	caps := map[string]string{}
+	ast.Inspect(sf.Body, func(n ast.Node) bool {
+		if as, ok := n.(*ast.AssignStmt); ok && len(as.Lhs) == 1 && len(as.Rhs) == 1 {
+			if ce, ok := as.Rhs[0].(*ast.CallExpr); ok && exprString(st.fset, ce.Fun) == "make" && len(ce.Args) == 2 {
+				caps[exprString(st.fset, as.Lhs[0])] = exprString(st.fset, ce.Args[1])
+			}
+		}
+		return true
+	})
+	fmt.Fprintf(b, "/-- C17: buffer capacity of dataProcessingErrorChannel (an error send must never block the sender). -/\ndef dataErrorChannelCapacity : Nat := %s\n\n", orZero(caps["dataProcessingErrorChannel"]))
+}
+
+func callNameOf(p *pkgFiles, e ast.Expr) string {
+	if c, ok := e.(*ast.CallExpr); ok {
+		return exprString(p.fset, c.Fun)
+	}
+	return ""
+}
+
+func orZero(s string) string {
+	if s == "" {
+		return "0"
+	}
+	return s
 }
